@@ -71,11 +71,32 @@ def probe_rigid_motion(inp: Dict[str, Any]) -> Dict[str, Any]:
     U, S, Vt = np.linalg.svd(A.T @ B)
     dsign = np.sign(np.linalg.det(U @ Vt))
     R = (U @ np.diag([1, 1, dsign]) @ Vt).T
-    a = esh.run_named([name], sp, coords=[base])
-    b = esh.run_named([name], sp, coords=[xr])
+    if inp.get("same_object"):
+        # the rigid motion applied to the coordinates of ONE object that is then evaluated again (what a scan / a rotating MD frame does)
+        s_, _, ch_, mu_ = esh.batch([name])
+        Rx = np.array([[1.0, 0, 0], [0, 0, -1], [0, 1, 0]])
+        Rz = np.array([[0.0, -1, 0], [1, 0, 0], [0, 0, 1]])
+        seq = esh.run_sequence(s_, [np.array([base]), np.array([xr]), np.array([base @ Rx.T]), np.array([xr @ Rz.T]), np.array([base])], sp, charges=ch_, mult=(mu_ if inp.get("uhf") else None))
+        a, b = seq[0], seq[1]
+        extra_scalars = seq[2:]
+        for o in seq:
+            if o["e_mo"] is not None and o["e_mo"].ndim == 2:
+                o["e_mo"] = np.sort(o["e_mo"][:, : int(o["norb"][0])], axis=1)      # (re-used objects report tracked order: known finding F21 under C14; the SET must be invariant)
+    else:
+        a = esh.run_named([name], sp, coords=[base])
+        b = esh.run_named([name], sp, coords=[xr])
     bad: List[str] = []
     kinds = set()
     te, tf = inp.get("tol_e", 2e-8), inp.get("tol_f", 2e-6)
+    if inp.get("same_object"):
+        for j, o in enumerate(extra_scalars):
+            for k in ("Etot", "Hf", "e_gap", "e_mo"):
+                if a[k] is None:
+                    continue
+                d = float(np.max(np.abs(a[k] - o[k])))
+                if d > max(1e-6, te * float(np.max(np.abs(a[k])))):
+                    bad.append(f"evaluation {j + 3} on the same object (quarter turns): {k} changes by {d:.3e}")
+                    kinds.add("scalar")
     for k in ("Etot", "Eelec", "Enuc", "Hf", "e_gap"):
         if a[k] is None:
             continue
@@ -154,6 +175,9 @@ def gen_cases(ctx: Ctx):
         cases.append({"name": nm, "method": meth, "stratum": "generic:", "seed": int(rng.integers(0, 10**6)), "uhf": True, "eps": 1e-9, "tol_e": 2e-7, "tol_f": 1e-5})
     # excited state
     cases.append({"name": "ch2o", "method": "AM1", "stratum": "generic:", "seed": 3, "excited": {"n_states": 2, "method": "cis"}, "active_state": 1, "tol_f": 1e-5})
+    # the same object moved rigidly and evaluated again (large rotations: frontier p orbitals turn by more than 45 degrees)
+    for nm, meth in ([("h2o", "AM1"), ("ch2o", "PM3"), ("c2h4", "MNDO")] if ctx.thorough else [[("h2o", "AM1"), ("ch2o", "PM3")][ctx.seed % 2]]):
+        cases.append({"name": nm, "method": meth, "stratum": "generic:", "seed": int(rng.integers(0, 10**6)), "same_object": True, "shift": [0.3, -1.1, 2.0]})
     return cases
 
 
